@@ -1319,3 +1319,49 @@ Proof.
 Qed.
 
 End ChargeProofs.
+
+(* ------------------------------------------------------------------ the unique-rows step *)
+(* The decomposition addresses the left part of a row by its index into term_row.  That is sound only
+   because the index determines the row: rows with equal index are equal as tuples. *)
+Lemma insert_key_in k x l : In x (insert_key k l) <-> x = k \/ In x l.
+Proof.
+  induction l as [|h t IH]; cbn [insert_key].
+  - cbn. intuition.
+  - destruct (keqb_spec k h) as [->|NE].
+    + cbn. intuition (subst; auto).
+    + destruct (key_ltb k h); cbn [In]; [intuition|]. rewrite IH. intuition.
+Qed.
+Lemma term_rows_in k keys : In k (term_rows keys) <-> In k keys.
+Proof.
+  unfold term_rows. induction keys as [|a keys IH]; cbn [fold_right]; [tauto|].
+  rewrite insert_key_in, IH. cbn [In]. intuition.
+Qed.
+Lemma index_of_nth k l : In k l -> nth (index_of k l) l [] = k.
+Proof.
+  induction l as [|h t IH]; intros H; [destruct H|]. cbn [index_of].
+  destruct (keqb_spec k h) as [->|NE]; [reflexivity|]. cbn [nth]. apply IH. destruct H; [congruence|assumption].
+Qed.
+
+(* term_row[row_unique_inverse[t]] == table_row[t] *)
+Theorem row_index_reconstruct : forall (keys : list key) t, t < length keys ->
+  nth (nth t (row_inverse keys) O) (term_rows keys) [] = nth t keys [].
+Proof.
+  intros keys t Ht. unfold row_inverse.
+  rewrite (nth_indep _ O (index_of [] (term_rows keys))) by (now rewrite map_length).
+  rewrite (map_nth (fun k => index_of k (term_rows keys)) keys [] t).
+  apply index_of_nth, term_rows_in, nth_In, Ht.
+Qed.
+(* rows with equal index are equal as tuples, and conversely *)
+Theorem row_index_injective : forall (keys : list key) s t, s < length keys -> t < length keys ->
+  (nth s (row_inverse keys) O = nth t (row_inverse keys) O <-> nth s keys [] = nth t keys []).
+Proof.
+  intros keys s t Hs Ht. split; intros E.
+  - rewrite <- (row_index_reconstruct keys s Hs), <- (row_index_reconstruct keys t Ht), E. reflexivity.
+  - unfold row_inverse.
+    rewrite !(nth_indep _ O (index_of [] (term_rows keys))) by (now rewrite map_length).
+    rewrite !(map_nth (fun k => index_of k (term_rows keys)) keys []). now rewrite E.
+Qed.
+(* the call found in the source (Gen/UniqueRows.v) is the one this specification describes *)
+Theorem row_index_call_spec :
+  row_index_spec UniqueRows.row_index_call = Some (fun keys => (term_rows keys, row_inverse keys)).
+Proof. reflexivity. Qed.
